@@ -154,8 +154,7 @@ def pred_route(ops, out, check_groups=False):
                 return f"`{op}` did not reach {sorted(set(need) - set(targets))} which hold a matching non-shared subscription"
             for t in targets:
                 if not any(n == t and mqtt_match(fl, topic) for (n, sh, fl) in fed):
-                    if not any(n == t and sh != "-" and topic.startswith("$") for (n, sh, fl) in fed):
-                        return f"`{op}` forwarded to {t} which holds no matching subscription"
+                    return f"`{op}` forwarded to {t} which holds no matching subscription"
             if check_groups:
                 groups = set((sh, fl) for (_, sh, fl) in list(fed) + list(loc) if sh != "-" and mqtt_match(fl, topic))
                 local_nonshared = any(sh == "-" and mqtt_match(fl, topic) for (_, sh, fl) in loc)
@@ -188,7 +187,7 @@ def nontriv_route(ops, out):
 def gen_recv(rng):
     ops = ["new A", "join B", "join C", "hello B 1", "open B"]
     i = 0
-    for _ in range(rng.randint(1, 12)):
+    for _ in range(rng.randint(1, 6)):
         t = rng.choice(["t/1", "t/2", "$SYS/x"])
         ops.append(f"ev B {i} 1 msg {t} {rng.choice([0, 1, 1])} {rng.choice([0, 0, 1, 2])} {rng.choice([0, 1])}")
         i += 1
@@ -240,7 +239,7 @@ def streams(tier):
         (core.Stream("fedroute-shared", "fedroute", lambda rng: gen_route(rng, True), pred_route, nontriv_route, keep_prefix=1), 6000 * k),
         (core.Stream("fedroute-groups", "fedroute", lambda rng: gen_route(rng, True),
                      lambda ops, out: pred_route(ops, out, True), nontriv_route, keep_prefix=1), 500 * k),
-        (core.Stream("fedrecv-retained", "fedsession", gen_recv, pred_recv, lambda ops, out: any(" 1 0 " in op for op in ops), keep_prefix=5), 500 * k),
+        (core.Stream("fedrecv-retained", "fedsession", gen_recv, pred_recv, lambda ops, out: any(" 1 0 " in op for op in ops), keep_prefix=5), 300 * k),
     ]
 
 def run(r):
